@@ -183,7 +183,7 @@ func cmdCheck(args []string) int {
 	base, baseUndecided := loadBaseline(id)
 	if !*writeBaseline && tier.Name == "quick" {
 		// obligations that were already undecided on the unchanged tree are not claimed: no model search for them
-		tier.Skip = func(o *Obligation) bool { return baseUndecided[o.Name] && !contractKinds[o.Kind] }
+		tier.Skip = func(o *Obligation) bool { return baseUndecided[o.Name] }
 	}
 	if *writeBaseline {
 		tier.NoModels = true
@@ -231,7 +231,9 @@ func cmdCheck(args []string) int {
 			seen[o.Name] = true
 			k := byKind[o.Kind]
 			k[0]++
-			isClaimed := base[o.Name] || contractKinds[o.Kind]
+			// claimed: in the baseline, or generated from a contract/schema clause - unless that obligation was already
+			// undecided on the unchanged tree when the baseline was taken (proof incompleteness, listed and unclaimed)
+			isClaimed := base[o.Name] || (contractKinds[o.Kind] && !baseUndecided[o.Name])
 			if o.Answer == "unsat" {
 				k[1]++
 				byKind[o.Kind] = k
